@@ -163,6 +163,9 @@ func sortOfType(t types.Type) Sort {
 	case *types.Interface:
 		return SIface
 	case *types.Struct:
+		if opaqueStruct(t) {
+			return Sort{Kind: KOpaque, Name: structName(t)}
+		}
 		return Sort{Kind: KStruct, Name: structName(t)}
 	case *types.Tuple:
 		return Sort{Kind: KTuple}
